@@ -3,12 +3,13 @@ pub mod c02;
 pub mod c02r;
 pub mod c03;
 pub mod c04;
+pub mod c09;
 pub mod c10;
 
 use crate::framework::Spec;
 
 pub fn all() -> Vec<&'static Spec> {
-    vec![&c01::SPEC, &c02::SPEC, &c02::SPEC_C07, &c10::SPEC, &c03::SPEC, &c04::SPEC]
+    vec![&c01::SPEC, &c02::SPEC, &c02::SPEC_C07, &c10::SPEC, &c03::SPEC, &c04::SPEC, &c09::SPEC]
 }
 
 pub fn find(id: &str) -> Option<&'static Spec> {
